@@ -13,6 +13,7 @@ import (
 
 const sigCold = "cold-related-first-use"
 const sigOrBase = "shared-or-first-session-where-swap"
+const sigPrepPool = "preparestmt-tx-pool-smaller-than-goroutines"
 
 func digest(s string) int64 {
 	h := fnv.New64a()
@@ -103,6 +104,7 @@ func (c caseData) term(part int) string {
 func emit(out *lib.Out, spec RoundSpec, obs RoundObs) {
 	var c caseData
 	var sig1, sig2, shape string
+	smallPool, hung := false, false
 	nontriv := false
 	fatalInParse := strings.Contains(obs.Fatal, "[in-parse]")
 	orbase := spec.DB != nil && spec.DB.OrBase
@@ -229,6 +231,15 @@ func emit(out *lib.Out, spec RoundSpec, obs RoundObs) {
 		if d.OrBase {
 			sig2 = sigOrBase
 		}
+		hasTx := false
+		for _, p := range d.Programs {
+			for _, o := range p {
+				if o.Kind == "tx" {
+					hasTx = true
+				}
+			}
+		}
+		smallPool = d.PrepareStmt && d.Conns < d.G && hasTx
 		var fams []string
 		seen := map[string]bool{}
 		ops := 0
@@ -277,8 +288,13 @@ func emit(out *lib.Out, spec RoundSpec, obs RoundObs) {
 				c.builds = append(c.builds, t)
 			}
 			sort.Ints(c.builds)
+			if smallPool && obs.DB.Hang && !obs.Serial.Hang {
+				// PreparedStmtDB.prepare: a transaction waits for a statement another goroutine is
+				// preparing, which waits for the connection the transaction holds (part 3)
+				hung = true
+			}
 			for _, o := range []*DBObs{obs.DB, obs.Serial} {
-				if o.Hang {
+				if o.Hang && !hung {
 					c.bad++
 				}
 				c.bad += int64(len(o.Panics))
@@ -291,6 +307,9 @@ func emit(out *lib.Out, spec RoundSpec, obs RoundObs) {
 				out.Count("db_env_noise", "round dropped")
 				c.valid = false
 				c.races = nil
+			}
+			if hung {
+				c.valid = false
 			}
 			eq := len(c.conc) == len(c.serial)
 			out.Count("db_results_equal_serial", fmt.Sprint(eq && fmt.Sprint(c.conc) == fmt.Sprint(c.serial) && c.finalC == c.finalS))
@@ -312,6 +331,15 @@ func emit(out *lib.Out, spec RoundSpec, obs RoundObs) {
 	out.Add(lib.Case{Term: c.term(1), JSON: js, Sig: sig1, Shape: shape + "|p1", Nontriv: nontriv, Kind: "main"})
 	if orbase {
 		out.Add(lib.Case{Term: c.term(2), JSON: js, Sig: sig2, Shape: shape + "|p2", Nontriv: nontriv, Kind: "main"})
+	}
+	if smallPool {
+		c3 := c
+		c3.bad = 0
+		if hung {
+			c3.bad = 1
+		}
+		out.Add(lib.Case{Term: c3.term(3), JSON: js, Sig: sigPrepPool, Shape: shape + "|p3", Nontriv: nontriv, Kind: "main"})
+		out.Count("db_prepare_small_pool_hang", fmt.Sprint(hung))
 	}
 	out.Count("kind", spec.Kind)
 }
